@@ -735,8 +735,10 @@ struct Res {
 
 VH_CMD(flags)
 {
-    TestChain100Setup setup{ChainType::REGTEST};
-    uint64_t cons_tip, cons_next;
+    // A regtest node without extra blocks: the tip is the genesis block, the next block has height 1 where every buried
+    // deployment of regtest is active, so GetBlockScriptFlags(next) is the full consensus set.
+    TestingSetup setup{ChainType::REGTEST};
+    uint64_t cons_tip, cons_next, cons_far;
     int tip_height;
     {
         LOCK(cs_main);
@@ -744,16 +746,21 @@ VH_CMD(flags)
         const CBlockIndex* tip = cm.ActiveChain().Tip();
         tip_height = tip->nHeight;
         cons_tip = GetBlockScriptFlags(*tip, cm).as_int();
-        CBlockIndex next;
         const uint256 fake_hash{uint256::ONE};
+        CBlockIndex next;
         next.pprev = const_cast<CBlockIndex*>(tip);
         next.nHeight = tip->nHeight + 1;
         next.phashBlock = &fake_hash;
         cons_next = GetBlockScriptFlags(next, cm).as_int();
+        CBlockIndex far;
+        far.pprev = &next;
+        far.nHeight = 1000000;
+        far.phashBlock = &fake_hash;
+        cons_far = GetBlockScriptFlags(far, cm).as_int();
     }
     const uint64_t std_flags = STANDARD_SCRIPT_VERIFY_FLAGS.as_int();
     const uint64_t mand_flags = MANDATORY_SCRIPT_VERIFY_FLAGS.as_int();
-    vh::log().line(vh::J().b("meta", true).raw("flagbits", FlagBitsJson()).u("std", std_flags).u("mandatory", mand_flags).u("cons_tip", cons_tip).u("cons_next", cons_next).i("tip_height", tip_height).u("all", ALL_FLAGS).done());
+    vh::log().line(vh::J().b("meta", true).raw("flagbits", FlagBitsJson()).u("std", std_flags).u("mandatory", mand_flags).u("cons_tip", cons_tip).u("cons_next", cons_next).u("cons_far", cons_far).i("tip_height", tip_height).u("all", ALL_FLAGS).done());
     const int64_t npairs = args.geti("pairs", 64);
 
     for (uint64_t cidx = args.from; cidx < args.to; ++cidx) {
@@ -810,17 +817,23 @@ VH_CMD(flags)
             const Res ra = eval(a), rb = eval(b);
             pairs.push_back("[" + std::to_string(a) + "," + std::to_string(b) + "," + std::to_string(ra.err) + "," + std::to_string(rb.err) + "]");
         };
-        // single-bit removals from the full set and from the standard set
-        for (uint64_t base : {ALL_FLAGS, std_flags}) {
+        // single-flag removals from the full, the standard and the consensus set
+        for (uint64_t base : {ALL_FLAGS, std_flags, cons_next}) {
             for (int bit = 0; bit < MAX_SCRIPT_VERIFY_FLAGS_BITS; ++bit) {
                 if (!(base >> bit & 1)) continue;
                 const uint64_t a = Trim(base & ~(uint64_t{1} << bit));
                 add_pair(a, base);
             }
         }
+        // single-flag additions on top of the consensus set
+        for (int bit = 0; bit < MAX_SCRIPT_VERIFY_FLAGS_BITS; ++bit) {
+            if (cons_next >> bit & 1) continue;
+            add_pair(cons_next, Fill(cons_next | (uint64_t{1} << bit)));
+        }
         // consensus vs full / standard, nothing vs consensus
         add_pair(cons_next, std_flags);
         add_pair(cons_next, ALL_FLAGS);
+        if ((cons_tip & ~cons_next) == 0) add_pair(cons_tip, cons_next);
         add_pair(0, cons_next);
         for (int64_t i = 0; i < npairs; ++i) {
             uint64_t b;
@@ -844,10 +857,10 @@ VH_CMD(flags)
             }
             add_pair(a, b);
         }
-        const Res rs = eval(std_flags), rc = eval(cons_next), rt = eval(cons_tip);
+        const Res rs = eval(std_flags), rc = eval(cons_next), rt = eval(cons_tip), rf = eval(cons_far);
         vh::J j;
         j.u("case", cidx).str("tpl", c.tpl).str("var", c.var).str("tx", TxHex(c.tx)).raw("spent", SpentJson(c.spent)).u("nin", c.nIn)
-            .i("std", rs.err).i("cons", rc.err).i("cons_tip", rt.err).u("nondet", nondet).raw("p", vh::JArr(pairs));
+            .i("std", rs.err).i("cons", rc.err).i("cons_tip", rt.err).i("cons_far", rf.err).u("nondet", nondet).raw("p", vh::JArr(pairs));
         vh::log().rec(j);
     }
     return 0;
